@@ -82,6 +82,7 @@ def gen(tier, seed, chunk, nch):
         hostile = [(c, t) for c, t in optgen.flat_pool(optgen.token_pool(d))
                    if c.startswith(("malformed", "bundle", "long-undeclared", "short-undeclared",
                                     "no-", "long-toggle-eq", "short-toggle-eq", "long-near"))]
+        # (bundle-highbyte and no-toggle-near-miss are included through the prefixes above)
         hostile += _big_tokens(d, sizes) if d in (FAM[0], ENV_DECL) or tier != "quick" else []
         base_env = {}
         if d is ENV_DECL:
